@@ -919,6 +919,12 @@ void remove_duplicates_helper(COOMatrix* A, std::vector<T>& vals)
     }
 
     A->nnz = ctr;
+
+    // drop the merged-away tail (for block values it holds pointers that
+    // were freed or moved to the front)
+    A->idx1.resize(ctr);
+    A->idx2.resize(ctr);
+    vals.resize(ctr);
 }
 
 template <typename T>
